@@ -155,6 +155,39 @@ CLAIMS = {
         technique="role templates over canonical forms, writer/reader analysis, constant-table reading, path-wise "
                   "condition extraction, finite-domain interpretation of get_current_term",
     ),
+    "C12": dict(
+        category="other",
+        text="Each capacity is tied to the code that fills it, for all patterns/grammars/limits: the automaton size "
+             "analyser and the builder are compared operation by operation as polynomials over their operands "
+             "(states created, slice returned; rep for n == 0 and n != 0) (CAP-D); per-term-kind sizes against the "
+             "states add_term_data_to_dfa creates and their sum against lexer_sm (CAP-T); pushes into item vectors "
+             "against membership tests and the default cap against the count of valid items (CAP-I); growth of every "
+             "fixed-capacity container against an inside capacity test, so that too-small user limits throw / are "
+             "not constant expressions (CAP-K, CAP-B); the new-state index against the state cap by a small linear "
+             "argument on every path (CAP-ST); the fixed parse stacks by push-site accounting (CAP-S), which reports "
+             "the two recorded known findings.",
+        design_ref="DESIGN.md 5/C12",
+        note=TB + " Not decided: that the default STATE cap suffices for every grammar (heuristic; overflow is "
+                  "checked and loud). Known findings: CAP-S x2 (known_findings.txt).",
+        technique="symbolic (polynomial) comparison of sibling implementations, guarded-growth and path-wise bound "
+                  "analysis, push-site accounting",
+    ),
+    "C06": dict(
+        category="other",
+        text="Memory-safety clauses that are visible in the shape of the code are decided for every input: a lexer "
+             "result's length is used only after its validity test (TAG), containers test capacity before growing "
+             "and bitsets their index (CAP-K/B/ST), byte tables are indexed through char_to_idx (CHARIDX), an index "
+             "of space X only indexes arrays of dimension X (IDX over the whole header), sentinel-carrying values "
+             "are compared with the sentinel before use as an index (SENT), moving iterators are compared with the "
+             "end before every dereference and scans advance (ITER, MATCH), the match length is never narrowed "
+             "(LENW), the stack top is read only when non-empty in pop_stacks (EMPTY), fixed parse stacks are "
+             "accounted (CAP-S: the two recorded findings, loud since the cvector fix).",
+        design_ref="DESIGN.md 5/C06",
+        note=TB + " Not decided: termination of the driver loop; stack bounds that follow from LR table invariants "
+                  "(erase(end - r), goto cell after a reduce); iterator discipline inside regex_lexer.",
+        technique="typestate/tag analysis, guarded-growth analysis, units-of-measure inference, path-wise must-"
+                  "precede analysis on structured control flow",
+    ),
 }
 
 NOT_APPLICABLE = {
